@@ -12,6 +12,7 @@ Every scenario is a JSON-serialisable dict carrying a ``check`` field; ``replay`
 """
 import math
 from copy import deepcopy
+import os
 from datetime import datetime, timedelta
 
 from .. import gen, wire
@@ -26,12 +27,13 @@ def guarded(fn, seconds=5.0):
     return _guarded(fn, seconds=seconds)
 
 
-def guard_check(check):
+def guard_check(check, seconds=None):
     """wrap a check function: a hang inside the library becomes a 'diverged' verdict instead of a stuck worker"""
 
     def wrapped(scn):
         try:
-            return guarded(lambda: check(scn))
+            budget = seconds or (20.0 if os.environ.get("HX_TIER") == "thorough" else 8.0)
+            return guarded(lambda: check(scn), seconds=budget)
         except Diverged:
             kind = scn.get("check", "c08.roundtrip")
             sig = f"{kind.split('.')[0].upper()}:Hexital:diverged"
@@ -2066,15 +2068,16 @@ def check_c02_hexital(scn):
         collapsing = bool(cfg.get("tf")) if name == "default" else True
         return cs[:-1] if collapsing and cs else cs
 
-    for a in range(len(snaps)):
-        for b in range(a + 1, len(snaps)):
-            for name, cs in snaps[a][1].items():
-                c = closed(name, cs)
-                later = snaps[b][1].get(name, [])
-                if not same(later[: len(c)], c):
-                    d = first_diff(c, later[: len(c)])
-                    return {"clause": "repaint-live", "manager": name, "at": snaps[a][0], "later": snaps[b][0], **(d or {}),
-                            "signature": "C02:Hexital:repaint-live"}
+    # adjacent snapshots suffice: closed(a) is a prefix of snap(a+1) and shorter than it, hence of closed(a+1), and so on
+    for a in range(len(snaps) - 1):
+        b = a + 1
+        for name, cs in snaps[a][1].items():
+            c = closed(name, cs)
+            later = snaps[b][1].get(name, [])
+            if not same(later[: len(c)], c):
+                d = first_diff(c, later[: len(c)])
+                return {"clause": "repaint-live", "manager": name, "at": snaps[a][0], "later": snaps[b][0], **(d or {}),
+                        "signature": "C02:Hexital:repaint-live"}
     last = snaps[-1][1]
     for name, cs in last.items():
         c = closed(name, cs)
